@@ -47,6 +47,8 @@ func checkC01(r *Report, p *Program) {
 	r07_3(r, p)
 	// one content write per child per sync (shared with C06)
 	oneWritePerChild(r, p, "R01.6")
+	// children the hook no longer lists are deleted (shared with C06)
+	deleteTable(r, p, "R01.7")
 }
 
 func r01_children(r *Report, p *Program) {
